@@ -78,11 +78,96 @@ def check_api_property(ctx, oracle, n_quick, n_thorough, caller_mut=0.0, malform
     if ctx.failures: _shrink_failures(ctx, oracle)
     return core.finish(ctx, API_RULE)
 
-def c06(ctx): return check_api_property(ctx, oracles.c06, 160, 4000)
-def c07(ctx): return check_api_property(ctx, oracles.c07, 200, 5000, malformed=0.45)
+def ratio_scripts(ctx):
+    """C05: sub-frame ratio changes (ANALOG:RATE / POINT:RATE) up and down with 1-4 declared channels, without and with frames"""
+    import random
+    out = []
+    X = gen.xhex; F = gen.f2h
+    n = 24 if ctx.quick else 600
+    for i in range(n):
+        r = random.Random(ctx.seed * 991 + i)
+        nch = r.choice([1, 1, 2, 3, 4]); npt = r.choice([0, 1, 2])
+        L = ["new"] + ["analog %s" % X(b"C%d" % k) for k in range(nch)] + ["point %s" % X(b"P%d" % k) for k in range(npt)]
+        prate = r.choice([10.0, 50.0, 100.0])
+        L.append("param x504f494e54 x52415445 x 0 F - %s" % F(prate))
+        ratio = r.choice([10, 12, 8, 6])
+        L.append("param x414e414c4f47 x52415445 x 0 F - %s" % F(prate * ratio))
+        with_frames = i % 3 == 0
+        for step in range(r.randint(4, 9)):
+            if with_frames and step == 2:
+                pts = ";".join("%s:%s:%s:%s:%s" % (X(b"P%d" % k), F(1.0), F(2.0), F(3.0), F(0.0)) for k in range(npt)) or "-"
+                sub = ";".join("%s:%s" % (X(b"C%d" % k), F(0.25 * k)) for k in range(nch))
+                L.append("mkframe v%d %s %s" % (step, pts, "|".join([sub] * ratio))); L.append("frame v%d" % step)
+            ratio = r.choice([ratio - 1, ratio - 2, ratio + 1, ratio // 2, ratio * 2, 1, 3, 9, 8]) or 1
+            ratio = max(1, min(ratio, 40))
+            if r.random() < 0.2:
+                prate = r.choice([10.0, 50.0, 100.0, 25.0]); L.append("param x504f494e54 x52415445 x 0 F - %s" % F(prate))
+            L.append("param x414e414c4f47 x52415445 x 0 F - %s" % F(prate * ratio))
+            if r.random() < 0.3: L.append("analog %s" % X(b"D%d" % step))
+        out.append((L, {"ratio_sweep": 1}, "ratio-%d" % i))
+    return out
+
+def column_scripts(ctx):
+    """C07/C10: state x deviation product for the column adders: k frames with s sub-frames, then columns that are
+    valid or carry exactly one defect at a chosen (frame, sub-frame, column) position"""
+    import random
+    out = []
+    X = gen.xhex; F = gen.f2h
+    n = 40 if ctx.quick else 1000
+    for i in range(n):
+        r = random.Random(ctx.seed * 773 + i); g = gen.G(ctx.seed * 773 + i)
+        npt = r.choice([1, 2, 3]); nch = r.choice([1, 2, 3]); nsub = r.choice([1, 2, 3, 4]); nfr = r.choice([1, 2, 3, 4])
+        L = ["new"] + ["point %s" % X(b"P%d" % k) for k in range(npt)] + ["analog %s" % X(b"C%d" % k) for k in range(nch)]
+        L += ["param x504f494e54 x52415445 x 0 F - %s" % F(100.0), "param x414e414c4f47 x52415445 x 0 F - %s" % F(100.0 * nsub)]
+        pts = ";".join("%s:%s:%s:%s:%s" % (X(b"P%d" % k), g.fbits(), g.fbits(), g.fbits(), g.fbits()) for k in range(npt))
+        sub = ";".join("%s:%s" % (X(b"C%d" % k), g.fbits()) for k in range(nch))
+        L.append("mkframe f %s %s" % (pts, "|".join([sub] * nsub)))
+        L += ["frame f"] * nfr
+        pnames = [b"P%d" % k for k in range(npt)]; cnames = [b"C%d" % k for k in range(nch)]
+        nv = 0
+        for step in range(r.randint(3, 7)):
+            kind = r.choice(["point", "analog", "analog"])
+            ncol = r.choice([1, 2, 3])
+            names = [b"N%d_%d" % (step, c) for c in range(ncol)]
+            dev = r.choice([None, None, "dup-first", "dup-last", "missing-at", "extra-frame", "fewer-frames", "empty", "sub-count", "dup-among-new"])
+            df, dsf, dc = r.randrange(nfr), r.randrange(nsub), r.randrange(ncol)
+            if dev == "dup-first": names[0] = r.choice(pnames if kind == "point" else cnames)
+            elif dev == "dup-last": names[-1] = r.choice(pnames if kind == "point" else cnames)
+            elif dev == "dup-among-new" and ncol > 1: names[-1] = names[0]
+            vs = []
+            nf = nfr + 1 if dev == "extra-frame" else max(nfr - 1, 0) if dev == "fewer-frames" else nfr
+            for f in range(nf):
+                nv += 1; v = "c%d" % nv; vs.append(v)
+                if kind == "point":
+                    nn = list(names)
+                    if dev == "missing-at" and f == df: nn = nn[:dc] + nn[dc + 1:] if f > 0 else nn[:-1]
+                    if dev == "empty": nn = []
+                    L.append("mkframe %s %s -" % (v, ";".join("%s:%s:%s:%s:%s" % (X(x), g.fbits(), g.fbits(), g.fbits(), g.fbits()) for x in nn) or "-"))
+                else:
+                    subs = []
+                    ns = nsub + r.choice([-1, 1]) if dev == "sub-count" else nsub
+                    for sf in range(max(ns, 0)):
+                        nn = list(names)
+                        if dev == "missing-at" and f == df and sf == dsf: nn = nn[:-1]
+                        if dev == "empty": nn = []
+                        subs.append(";".join("%s:%s" % (X(x), g.fbits()) for x in nn) or "e")
+                    L.append("mkframe %s - %s" % (v, "|".join(subs) or "-"))
+            L.append(("pointcol " if kind == "point" else "analogcol ") + " ".join(vs))
+            ok = dev is None or (dev == "dup-among-new")
+            if dev == "missing-at" and kind == "point" and df == 0 and nfr > 0: ok = False
+            if ok:
+                if kind == "point": pnames += [x for x in names]
+                else: cnames += [x for x in names]
+            g.count("coldev_%s_%s" % (kind, dev))
+        L += ["save @W@/c.c3d", "load @W@/c.c3d"]
+        out.append((L, g.stats, "columns-%d" % i))
+    return out
+
+def c06(ctx): return check_api_property(ctx, oracles.c06, 160, 4000, extra=column_scripts)
+def c07(ctx): return check_api_property(ctx, oracles.c07, 200, 5000, malformed=0.45, extra=column_scripts)
 def c08(ctx): return check_api_property(ctx, oracles.c08, 160, 3000, caller_mut=0.6)
-def c10(ctx): return check_api_property(ctx, oracles.c10, 200, 5000, malformed=0.5)
-def c05(ctx): return check_api_property(ctx, oracles.c05, 200, 5000, with_io=True)
+def c10(ctx): return check_api_property(ctx, oracles.c10, 200, 5000, malformed=0.5, extra=column_scripts)
+def c05(ctx): return check_api_property(ctx, oracles.c05, 200, 5000, with_io=True, extra=lambda c: ratio_scripts(c) + column_scripts(c))
 
 def pset_scripts(ctx):
     r = random.Random(ctx.seed + 77)
@@ -253,7 +338,7 @@ def residue_scripts(ctx, residues):
     base = 0
     for k in residues:
         L = ["new", "point x5031", "analog x4331", "param x504f494e54 x52415445 x 0 F - 42c80000", "param x414e414c4f47 x52415445 x 0 F - 43480000",
-             "mkframe v x5031:3f800000:40000000:40400000:3e800000 x4331:3f000000|x4331:bf000000", "frame v", "frame v",
+             "mkframe v x5031:3f8ccccd:40000000:40400000:3e800000 x4331:3f000000|x4331:bf000000", "frame v", "frame v",
              "param x4747 x5050 %s 0 I - 7" % gen.xhex(bytes([65 + (j % 26) for j in range(k % 256)])),
              "param x4747 x5151 %s 0 I - 8" % gen.xhex(bytes([97 + (j % 26) for j in range(255 if k >= 256 else 0)])),
              "save @W@/r.c3d", "load @W@/r.c3d", "save @W@/r2.c3d"]
@@ -284,11 +369,10 @@ def check_file_property(ctx, kinds, n_quick, n_thorough, extra=None):
             else: ctx.fail(clause, where, detail, lines)
     return core.finish(ctx, VALID_RULE)
 
-def c01(ctx): return check_file_property(ctx, {"C01"}, 150, 4000)
+def c01(ctx): return check_file_property(ctx, {"C01"}, 150, 4000, extra=lambda c: residue_scripts(c, list(range(512))))
 def c03(ctx):
     def extra(c):
-        res = list(range(0, 512, 8)) if c.quick else list(range(512))
-        return residue_scripts(c, res)
+        return residue_scripts(c, list(range(512)))
     return check_file_property(ctx, {"C03"}, 100, 2500, extra=extra)
 
 CHECKS.update({"C01": c01, "C03": c03})
@@ -314,11 +398,28 @@ def check_c02_c04(ctx, which, n_quick, n_thorough):
     exe = ctx.exe("asan")
     vendor = ["/repo/test/c3dFiles/Vicon.c3d", "/repo/test/c3dFiles/Qualisys.c3d"]
     jobs = [("gen", ctx.seed * 7919 + i) for i in range(n)] + [("vendor", v) for v in vendor]
+    if which == "C04": jobs += [("sweep", j) for j in range(512)]      # every residue of the re-serialised parameter section
     def one(job):
         wd = run.workdir()
         kind, arg = job
         if kind == "gen":
             path = os.path.join(wd, "in.c3d"); desc, content = c3dgen.make_file(arg, path, big=(arg % 37 == 0))
+        elif kind == "sweep":
+            import random, struct
+            r_ = random.Random(7)
+            Ff = lambda v: struct.unpack("<I", struct.pack("<f", v))[0]
+            L_ = c3dgen.Layout(r_); L_.lead_zeros = 0; L_.zero_prologue = False; L_.param_block = 2; L_.order = "groups_first"; L_.sparse_ids = False; L_.extra_blocks = 0; L_.pad_byte = 0x20
+            groups = [(1, b"POINT", False, b""), (2, b"ANALOG", False, b""), (3, b"SWEEP", False, b"")]
+            params = [(1, b"USED", False, "I", [], [1], b""), (1, b"SCALE", False, "F", [], [Ff(-1.0)], b""), (1, b"RATE", False, "F", [], [Ff(100.0)], b""),
+                      (1, b"DATA_START", False, "I", [], [0], b""), (1, b"FRAMES", False, "I", [], [2], b""), (1, b"LABELS", False, "C", [2, 1], [b"P1"], b""),
+                      (2, b"USED", False, "I", [], [0], b""), (2, b"RATE", False, "F", [], [Ff(100.0)], b""),
+                      (3, b"A", False, "I", [], [7], bytes(65 + i % 26 for i in range(min(arg, 255)))), (3, b"B", False, "I", [], [8], bytes(97 + i % 26 for i in range(min(max(arg - 255, 0), 255)))),
+                      (3, b"C", False, "I", [], [9], bytes(48 + i % 10 for i in range(max(arg - 510, 0))))]
+            header = dict(points=1, analog_per_frame=0, first=1, last=2, gap=0, scale=Ff(-1.0), subframes=1, rate=Ff(100.0), events=[])
+            frames = [([[Ff(1.1), Ff(2.2), Ff(3.3), Ff(0.5)]], [[]]), ([[Ff(4.4), Ff(5.5), Ff(6.6), Ff(0.25)]], [[]])]
+            path = os.path.join(wd, "in.c3d"); b_, ds_ = c3dgen.encode(dict(groups=groups, params=params, header=header, frames=frames), L_, r_)
+            bb = bytearray(b_); i_ = bb.find(b"DATA_START"); bb[i_ + 14:i_ + 16] = struct.pack("<H", ds_); open(path, "wb").write(bytes(bb))
+            desc = "sweep-%d" % arg
         else:
             path = arg; desc = os.path.basename(arg)
         big = kind == "vendor"
